@@ -302,4 +302,180 @@ def openGuarded (limit : Nat) (file : Bytes) : Verdict :=
         | .error e => .err (.hdr e) w
         | .ok info => .ok h info w
 
+
+/-! ### 5. variants of the reader: trees that carry repairs of the C19 findings
+
+  `int63` — repair of B10-3 / B10-5 / B10-6 (patch C19-B10-5-int64-header-fields): a 64-bit NON_NEG /
+  OFFSET field with the sign bit set (numrecs, dimension length, attribute nelems, begin), an
+  attribute whose value size is not representable, and a variable with begin + len > 2^63 − 1 are
+  refused with NC_ENOTNC before they enter signed arithmetic.  `int63 = false` is the code as it
+  stands (`getBodyS false = getBody`, `postPassS false = postPass`: Lemmas/SafetyStrict.lean).
+  The list counts, name lengths, ndims and dimension ids need no new test: their existing upper
+  limits already refuse such values. -/
+
+def X_INT64_MAX : Nat := 9223372036854775807
+
+/-- hdr_get_NC_dim with the sign test on dim_length -/
+def getDimS (strict : Bool) (ver : Nat) (haveUnlim : Bool) : P Dim := do
+  let name ← getName ver
+  let dimLength ← getNonNeg ver
+  if strict = true ∧ dimLength > X_INT64_MAX then .fail .enotnc else
+  if haveUnlim ∧ dimLength = 0 then .fail .eunlimit else
+  .ret { name := name, size := dimLength }
+
+def getDimsS (strict : Bool) (ver : Nat) : Nat → Bool → P (List Dim)
+  | 0, _ => .ret []
+  | n + 1, haveUnlim => do
+    let d ← getDimS strict ver haveUnlim
+    let ds ← getDimsS strict ver n (haveUnlim || d.size == 0)
+    .ret (d :: ds)
+
+def getDimArrayS (strict : Bool) (ver : Nat) : P (List Dim) :=
+  getArray ver NC_DIMENSION NC_MAX_DIMS .emaxdims (fun n => getDimsS strict ver n false)
+
+/-- hdr_get_NC_attr with the range test on nelems (`nelems < 0 || nelems > (X_INT64_MAX - X_ALIGN) / xsz`) -/
+def getAttrS (strict : Bool) (ver : Nat) : P Att := do
+  let name ← getName ver
+  let type ← getType ver
+  let nelems ← getNonNeg ver
+  if strict = true ∧ nelems > (X_INT64_MAX - 4) / type.size then .fail .enotnc else
+  let nbytes := nelems * type.size
+  let xsz := if nelems > 0 then xlenAttrV type nelems else 0
+  let padding : Fin 4 := ⟨xsz - nbytes, by
+    show (if nelems > 0 then xlenAttrV type nelems else 0) - nelems * type.size < 4
+    split
+    · exact xlenAttrV_sub_lt type nelems
+    · omega⟩
+  let value ← getBytes nbytes
+  let a : Att := { name := name, xtype := type, nelems := nelems, xvalue := value }
+  if padding.val > 0 then .pad padding (.ret a) else .ret a
+
+def getAttrArrayS (strict : Bool) (ver : Nat) : P (List Att) :=
+  getArray ver NC_ATTRIBUTE NC_MAX_ATTRS .emaxatts (fun n => getN (getAttrS strict ver) n)
+
+/-- hdr_get_NC_var with the sign test on begin -/
+def getVarS (strict : Bool) (ver : Nat) (fNdims : Nat) : P Var := do
+  let name ← getName ver
+  let ndims ← getNonNeg ver
+  if ndims > NC_MAX_VAR_DIMS then .fail .emaxdims else
+  let dimids ← getN (getDimid ver fNdims) ndims
+  let atts ← getAttrArrayS strict ver
+  let xtype ← getType ver
+  let vsize ← getNonNeg ver
+  let begin_ ← getBegin ver
+  if strict = true ∧ begin_ > X_INT64_MAX then .fail .enotnc else
+  .ret { name := name, dimids := dimids, atts := atts, xtype := xtype, vsize := vsize, begin := begin_ }
+
+def getVarArrayS (strict : Bool) (ver : Nat) (fNdims : Nat) : P (List Var) :=
+  getArray ver NC_VARIABLE NC_MAX_VARS .emaxvars (fun n => getN (getVarS strict ver fNdims) n)
+
+/-- ncmpio_hdr_get_NC after the magic, with the sign test on numrecs -/
+def getBodyS (strict : Bool) (f : Fmt) : P Hdr := do
+  let ver := f.version
+  let numrecs ← getNonNeg ver
+  if strict = true ∧ numrecs > X_INT64_MAX then .fail .enotnc else
+  let dims ← getDimArrayS strict ver
+  let gatts ← getAttrArrayS strict ver
+  let vars ← getVarArrayS strict ver dims.length
+  .ret { fmt := f, numrecs := numrecs, dims := dims, gatts := gatts, vars := vars }
+
+/-- the loop of compute_var_shape with the test `begin > X_INT64_MAX - len` after ncmpio_NC_var_shape64 -/
+def cvsLoopS (strict : Bool) (dims : List Dim) : List Var → CvsState → Except Err CvsState
+  | [], st => .ok st
+  | v :: vs, st =>
+    match varShape64 dims v with
+    | .error e => .error e
+    | .ok (shape, len) =>
+      if strict = true ∧ v.begin + len > X_INT64_MAX then .error .enotnc else
+      let st := { st with shapes := st.shapes ++ [shape], lens := st.lens ++ [len] }
+      if isRecShape shape then
+        cvsLoopS strict dims vs { st with
+          firstRec := (match st.firstRec with | none => some (v.begin, len, dsizes0 shape * v.xtype.size) | some x => some x)
+          recsize := st.recsize + len }
+      else
+        cvsLoopS strict dims vs { st with
+          firstVar := (match st.firstVar with | none => some v.begin | some x => some x)
+          beginRec := v.begin + len }
+
+def computeVarShapeS (strict : Bool) (h : Hdr) (xsz : Nat) : Except Err (Nat × Nat × Nat × List (List Nat) × List Nat) :=
+  if h.vars.length = 0 then .ok (0, 0, 0, [], []) else
+  match cvsLoopS strict h.dims h.vars { beginRec := xsz, recsize := 0, firstVar := none, firstRec := none, shapes := [], lens := [] } with
+  | .error e => .error e
+  | .ok st => cvsFinish xsz st
+
+def postPassS (strict : Bool) (h : Hdr) : Except Err Info :=
+  let xsz := h.len
+  match computeVarShapeS strict h xsz with
+  | .error e => .error e
+  | .ok (beginVar, beginRec, recsize, shapes, lens) =>
+    let numRec := (shapes.filter isRecShape).length
+    match checkVlens h.fmt.version ((h.vars.map (fun v => v.xtype.size)).zip shapes) with
+    | .error e => .error e
+    | .ok () =>
+      match checkVoffs beginVar beginRec numRec
+              ((shapes.map isRecShape).zip ((h.vars.map (fun v => v.begin)).zip lens)) with
+      | .error e => .error e
+      | .ok () =>
+        .ok { xsz := xsz, beginVar := beginVar, beginRec := beginRec, recsize := recsize,
+              numRecVars := numRec, shapes := shapes, lens := lens }
+
+/-- ncmpio_hdr_get_NC (whole file in view) of a tree with / without the int63 repair -/
+def decodeWholeS (strict : Bool) (file : Bytes) : Except Err (Hdr × Info) :=
+  match checkMagic (ztake 12 file) with
+  | .error e => .error e
+  | .ok f =>
+    match run flatR (getBodyS strict f) (file.drop 4) with
+    | .error e => .error e
+    | .ok (h, _) =>
+      match postPassS strict h with
+      | .error e => .error e
+      | .ok info => .ok (h, info)
+
+
+/-- ncmpio_hdr_get_NC through the read window, tree with / without the int63 repair -/
+def decodeChunkedS (strict : Bool) (ncpChunk : Nat) (file : Bytes) : Except Err (Hdr × Info) :=
+  let chunk := chunkOf ncpChunk
+  let w0 := fetch file chunk { buf := zeros chunk, pos := 0, off := 0 }
+  match checkMagic (w0.buf.take 12) with
+  | .error e => .error e
+  | .ok f =>
+    match run (winR file chunk) (getBodyS strict f) { w0 with pos := 4 } with
+    | .error e => .error e
+    | .ok (h, _) =>
+      match postPassS strict h with
+      | .error e => .error e
+      | .ok info => .ok (h, info)
+
+/-- `bytesFetched` for the variant -/
+def bytesFetchedS (strict : Bool) (ncpChunk : Nat) (file : Bytes) : Nat :=
+  let chunk := chunkOf ncpChunk
+  let w0 := fetch file chunk { buf := zeros chunk, pos := 0, off := 0 }
+  match checkMagic (w0.buf.take 12) with
+  | .error _ => w0.off
+  | .ok f => (endWin file chunk (getBodyS strict f) { w0 with pos := 4 }).off
+
+/-- `openVerdict` / `openGuarded` for the variant -/
+def openVerdictS (strict : Bool) (file : Bytes) : Except OpenErr (Hdr × Info) :=
+  match inqFileFormat file with
+  | .error e => .error e
+  | .ok _ =>
+    match decodeWholeS strict file with
+    | .error e => .error (.hdr e)
+    | .ok r => .ok r
+
+def openGuardedS (strict : Bool) (limit : Nat) (file : Bytes) : Verdict :=
+  match inqFileFormat file with
+  | .error e => .err e false
+  | .ok _ =>
+    match checkMagic (ztake 12 file) with
+    | .error e => .err (.hdr e) false
+    | .ok f =>
+      match guardRun file.length limit (getBodyS strict f) (file.drop 4) 4 false with
+      | .big b m w => .big b m w
+      | .err e _ w => .err (.hdr e) w
+      | .ok h _ _ w =>
+        match postPassS strict h with
+        | .error e => .err (.hdr e) w
+        | .ok info => .ok h info w
+
 end PnVerif.Safety
